@@ -464,6 +464,32 @@ def main(argv=None):
             exit_code = 2
         elif not obligations:
             exit_code = 3
+    # a function the verifier cannot bring within its reach (unsupported construct): where the replay oracle has a
+    # native harness for it, a BOUNDED check of the real function stands in - labelled bounded, never counted as
+    # proved: a failing input is a violation (it is real), finding none leaves the function undecided (exit 3)
+    bounded_fallbacks = []
+    seen_fb = set()
+    for e in errors:
+        if e["error"]["kind"] != "unsupported" or (e["key"], e["tree"]) in seen_fb:
+            continue
+        seen_fb.add((e["key"], e["tree"]))
+        try:
+            ok, detail = R.try_replay(prop, {"oid": f"{prop}:{e['key']}:bounded:native_oracle[{e['tree']}]"}, {}, os.path.abspath(args.repo), seed)
+        except Exception as ex:  # noqa: BLE001
+            ok, detail = False, {"error": f"{type(ex).__name__}: {ex}"}
+        applies = ok or "no native replay harness" not in str(detail.get("note", ""))
+        if not applies:
+            continue
+        rec = {"function": e["key"], "tree": e["tree"], "bounded": True, "why": e["error"]["msg"][:200], "outcome": "failing input found" if ok else "no failing input in the seeded family", "detail": detail}
+        bounded_fallbacks.append(rec)
+        if ok:
+            oid = f"{prop}:{e['key']}:bounded:native_oracle[{e['tree']}]"
+            h = hashlib.sha256(oid.encode()).hexdigest()[:10]
+            path = os.path.join(HERE, "replays", f"{prop}_{h}.json")
+            json.dump({"property": prop, "obligation": oid, "verdict": "failing input found by the bounded native stand-in (function outside the verifier's subset)",
+                       "checker_error": e["error"]["msg"], "native_replay": detail}, open(path, "w"), indent=1, default=str)
+            print(f"VIOLATION property={prop} replay={path} obligation={oid}")
+            exit_code = 1
     for e in errors:
         print(f"CHECKER-ERROR {e['key']}[{e['tree']}]: {e['error']['kind']}: {e['error']['msg']}")
         if args.verbose and e["error"].get("tb"):
@@ -507,11 +533,11 @@ def main(argv=None):
             print(f"  fn {r['key']}[{r['tree']}] {r['stats']}")
 
     if not args.no_evidence:
-        write_evidence(prop, tier, seed, spec, reg, repo, results, obligations, discharged, refuted_known, violations, undecided, missing, errors, wall, args, audit_results)
+        write_evidence(prop, tier, seed, spec, reg, repo, results, obligations, discharged, refuted_known, violations, undecided, missing, errors, wall, args, audit_results, bounded_fallbacks)
     n_ok = len(discharged)
     print(
         f"{prop}: {len(obligations)} obligations, {n_ok} discharged, {len(refuted_known)} known findings, "
-        f"{len(violations)} violations, {len(undecided) + len(missing)} undecided, {len(errors)} checker errors, {wall:.1f}s -> exit {exit_code}"
+        f"{len(violations) + sum(1 for b in bounded_fallbacks if b['outcome'] == 'failing input found')} violations, {len(undecided) + len(missing)} undecided, {len(errors)} checker errors, {wall:.1f}s -> exit {exit_code}"
     )
     return exit_code
 
@@ -545,7 +571,7 @@ def run_audits(prop, spec, repo_dir, seed):
     return out
 
 
-def write_evidence(prop, tier, seed, spec, reg, repo, results, obligations, discharged, refuted_known, violations, undecided, missing, errors, wall, args, audit_results=()):
+def write_evidence(prop, tier, seed, spec, reg, repo, results, obligations, discharged, refuted_known, violations, undecided, missing, errors, wall, args, audit_results=(), bounded_fallbacks=()):
     funcs = []
     solver_time = 0.0
     nvc = 0
@@ -602,6 +628,7 @@ def write_evidence(prop, tier, seed, spec, reg, repo, results, obligations, disc
             "obligation_list": {o["oid"]: o["status"] for o in sorted(obligations.values(), key=lambda x: x["oid"])},
             "known_findings_reported": sorted({o["oid"] for o in refuted_known}),
             "bounded_stand_ins": spec.get("bounded", []),
+            "bounded_function_stand_ins": list(bounded_fallbacks),
             "bounded_checks_run": list(audit_results) if tier == "thorough" else "bounded stand-ins run in the thorough tier only: " + ", ".join(a["script"] for a in spec.get("audits", [])) if spec.get("audits") else [],
             "not_decided": spec.get("not_decided", []),
             "file_sha256": repo.file_hashes(),
